@@ -690,9 +690,13 @@ pub fn run(ctx: Ctx) -> ! {
     }
     let quick = ctx.quick();
     // (full-sweep depth, strided depth, stride, edge, wall cap); engine checkers up to depth 1 in both tiers
-    let (full_depth, max_depth, stride, edge, cap_s): (usize, usize, u64, u64, f64) = if quick { (0, 1, 17, 50, 52.0) } else { (1, 2, 29, 30, 1080.0) };
+    let (full_depth, max_depth, stride, edge, cap_s): (usize, usize, u64, u64, f64) = if quick { (0, 1, 17, 50, 45.0) } else { (1, 2, 29, 30, 1000.0) };
     let engine_check_depth = 1usize;
     let cap_s = wall_cap_override().unwrap_or(cap_s);
+    // development aid: VERIF_C02_SMOKE=1 thins every layer (no full sweep, stride 997, edge 3) so that the oracle can
+    // be tried on all states of the tier quickly; the evidence of such a run says so and is never `exhaustive`
+    let smoke = std::env::var("VERIF_C02_SMOKE").is_ok();
+    let (full_depth, stride, edge) = if smoke { (usize::MAX, 997, 3) } else { (full_depth, stride, edge) };
 
     // ---- states
     let root_sim = sim_from(&root.snap);
@@ -766,11 +770,13 @@ pub fn run(ctx: Ctx) -> ! {
     let mut jobs_per_depth = vec![0u64; max_depth + 1];
     for i in order {
         let d = states[subjects[i].state].depth;
-        for k in ks_for(subjects[i].n, d <= full_depth, stride, edge) {
+        for k in ks_for(subjects[i].n, full_depth != usize::MAX && d <= full_depth, stride, edge) {
             jobs.push((i as u32, k as u32));
             jobs_per_depth[d] += 1;
         }
     }
+    // the wall cap applies to the sweep (the preparation above is a bounded, small amount of work)
+    let sweep_t0 = ctx.elapsed_s();
     let capped = AtomicBool::new(false);
     let done_per_depth: Vec<AtomicU64> = (0..=max_depth).map(|_| AtomicU64::new(0)).collect();
     let absorbed_below_n = AtomicU64::new(0);
@@ -781,7 +787,7 @@ pub fn run(ctx: Ctx) -> ! {
         if capped.load(Ordering::Relaxed) {
             return;
         }
-        if ctx.elapsed_s() > cap_s {
+        if ctx.elapsed_s() - sweep_t0 > cap_s {
             capped.store(true, Ordering::Relaxed);
             return;
         }
@@ -840,7 +846,7 @@ pub fn run(ctx: Ctx) -> ! {
     let engine_checked = AtomicU64::new(0);
     let engine_skipped = AtomicU64::new(0);
     par_range(&ctx, reps.len() as u64, 1, |j, l| {
-        if ctx.elapsed_s() > cap_s + 25.0 {
+        if ctx.elapsed_s() - sweep_t0 > cap_s + 20.0 {
             engine_skipped.fetch_add(1, Ordering::Relaxed);
             return;
         }
@@ -872,7 +878,7 @@ pub fn run(ctx: Ctx) -> ! {
     cov.insert("fault_points_min".into(), json!(ns.iter().min()));
     cov.insert("fault_points_max".into(), json!(ns.iter().max()));
     cov.insert("fault_points_total_over_subjects".into(), json!(ns.iter().sum::<u64>()));
-    cov.insert("full_sweep_up_to_depth".into(), json!(full_depth));
+    cov.insert("full_sweep_up_to_depth".into(), if full_depth == usize::MAX { json!("none (smoke run)") } else { json!(full_depth) });
     cov.insert("engine_checkers_up_to_depth".into(), json!(engine_check_depth));
     cov.insert("strided_sweep_depth".into(), json!(max_depth));
     cov.insert("stride".into(), json!(stride));
@@ -890,13 +896,16 @@ pub fn run(ctx: Ctx) -> ! {
     if capped {
         let done: Vec<u64> = done_per_depth.iter().map(|a| a.load(Ordering::Relaxed)).collect();
         let complete: Vec<usize> = (0..=max_depth).filter(|d| done[*d] == jobs_per_depth[*d]).collect();
-        ctx.note(format!("wall cap {cap_s}s hit; layers fully covered: {complete:?}"));
+        ctx.note(format!("wall cap ({cap_s}s for the sweep) hit; layers fully covered: {complete:?}"));
     }
     let nontrivial = failed_commits.load(Ordering::Relaxed) + rejected.load(Ordering::Relaxed);
     if nontrivial == 0 {
         mc_core::machinery_error("C02: the wall cap was hit before any faulted run was judged (overloaded machine?): nothing to report");
     }
-    let exhaustive = !capped && engine_skipped.load(Ordering::Relaxed) == 0;
+    let exhaustive = !capped && engine_skipped.load(Ordering::Relaxed) == 0 && !smoke;
+    if smoke {
+        ctx.note("VERIF_C02_SMOKE run: thinned sweep (development aid), not the tier's enumeration");
+    }
     ctx.finish(
         Level::FaultEnumeration,
         "a case is one execution of (history, transaction, injection point k | abort config | un-faulted); full sweep = every k in 1..=N+24 where N = number of cost-hook positions of that transaction in that state (boundary found by bisection on 'receipt differs from the un-faulted one', re-checked over the window past N, N >= number of execution-cost applications); strided sweep = k<=edge, k>N-edge, k multiple of stride; non-trivial = faulted runs that ended as failed commit, rejection or abort and went through the whole-database diff oracle",
